@@ -129,6 +129,7 @@ structure Node where
   dbFile     : Db := []                 -- main database file
   dbFileOk   : Bool := true             -- false while a swap is half done (file missing)
   fp         : Bool := false            -- clean_snapshot exists and matches the database file
+  fpIdx      : Nat := 0                 -- the newest snapshot's index when the marker was written (fix fa61aff)
   fullNeeded : Bool := false
   config     : Config := []
   peersFile  : Option Config := none
@@ -137,6 +138,12 @@ structure Node where
   live       : Db := []                 -- what queries see: database file + WAL
   applied    : Nat := 0                 -- number of command entries applied to `live`
 deriving Repr
+
+/-- index of the newest installed snapshot (`snapshotStore.LatestIndexTerm`; 0 = none) -/
+def newestIdx (n : Node) : Nat :=
+  match n.snap with
+  | some (i, _) => i
+  | none => 0
 
 /-! ### live operation -/
 
@@ -261,7 +268,7 @@ then `Persist` returns before the last step -/
 def persistStep (sinkTakesIt : Bool) (n : Node) : PersistStep → Node
   | .writeData => { n with snapTmp := some (n.applied, n.live) }
   | .handFinalizerToSink => n
-  | .runFinalizerHere => if sinkTakesIt then n else { n with fp := true }
+  | .runFinalizerHere => if sinkTakesIt then n else { n with fp := true, fpIdx := newestIdx n }
 
 /-- `FSMSnapshot.Persist`: the state reaches the snapshot store's temp directory -/
 def snapPersist (n : Node) : Node := persistSteps.foldl (persistStep true) n
@@ -293,7 +300,7 @@ def sinkStep (finalizerOk : Bool) (n : Node) : SinkStep → Node
     | some s => { n with snap := some s, snapTmp := none }
     | none => n
   | .clearFullNeeded => { n with fullNeeded := false }
-  | .afterClose => if finalizerOk then { n with fp := true } else n
+  | .afterClose => if finalizerOk then { n with fp := true, fpIdx := newestIdx n } else n
   | _ => n            -- these work inside the temp directory only
 
 /-- `Sink.Close` up to and including the clearing of the full-snapshot requirement: the snapshot is installed -/
@@ -343,6 +350,27 @@ def boot (n : Node) (d : Db) : Node :=
   let n2 := { n1 with live := d, dbFile := d, fp := false, fullNeeded := true }
   snapshot n2 1
 
+/-! #### the boot guard
+`ReadFrom` bypasses the log: the booted database reaches other nodes only by snapshot
+transfer, and a member that is caught up never gets one. So `ReadFrom` refuses unless the raft
+configuration (`s.Nodes()`: EVERY server, voters and non-voters) has exactly one server. -/
+
+/-- the guard as in the source: what is counted, the test, the error -/
+def bootGuardCode : List String := ["s.Nodes", "len(nodes) != 1", "ErrNotSingleNode"]
+
+/-- number of servers in the configuration (`[]` = the bootstrap configuration: this node only) -/
+def clusterSize (n : Node) : Nat := if n.config.isEmpty then 1 else n.config.length
+
+def bootAllowed (n : Node) : Bool := clusterSize n == 1
+
+/-- `ReadFrom` as the caller sees it: `true` = refused (`ErrNotSingleNode`), nothing changed -/
+def bootR (n : Node) (d : Db) : Node × Bool :=
+  if bootAllowed n then (boot n d, false) else (n, true)
+
+/-- another server is added to the configuration (a voter or a read-only node joins) -/
+def attach (n : Node) (self p : Peer) : Node :=
+  { n with config := (if n.config.isEmpty then [self] else n.config) ++ [p] }
+
 /-! ### crash, close, open -/
 
 /-- process crash: volatile state is gone; durable state is what the completed
@@ -367,7 +395,7 @@ def restoreStep (i : Nat) (d : Db) (n : Node) : RestoreStep → Node
   | .extract => n
   | .removeFingerprint => { n with fp := false }
   | .swapIn => { n with dbFile := d, dbFileOk := true, live := d, applied := i }
-  | .writeFingerprint => { n with fp := true }
+  | .writeFingerprint => { n with fp := true, fpIdx := newestIdx n }
 
 /-- `fsmRestore` of the newest snapshot (nothing to restore: an empty database is created) -/
 def restoreNewest (n : Node) : Node :=
@@ -408,8 +436,23 @@ def openNode (n : Node) : Node :=
   | none =>
     match n.snap with
     | some (i, _) =>
-      if n.fp && n.dbFileOk then openFast (openPrep n) i else openRebuild (openPrep n)
+      -- the marker is trusted only for the snapshot it was taken for (fix fa61aff)
+      if n.fp && n.dbFileOk && n.fpIdx == i then openFast (openPrep n) i else openRebuild (openPrep n)
     | none => openRebuild (openPrep n)
+
+/-! #### a snapshot received from the leader (follower install)
+raft writes the received snapshot into a sink of the snapshot store and closes it — the snapshot
+is INSTALLED in the store — and only then calls `FSM.Restore` (`fsmRestore`: `restoreSteps`).
+The log no longer reaches back before the snapshot. `hist'` is the cluster's committed history
+(this node's `hist` is a prefix of it), `j ≤ hist'.length` the snapshot's index, `d` its database. -/
+
+/-- the received snapshot is installed in the store; `FSM.Restore` has not run -/
+def installSinkClosed (n : Node) (hist' : List Cmd) (j : Nat) (d : Db) : Node :=
+  { n with hist := hist', snap := some (j, d), logStart := j, snapTmp := none }
+
+/-- the whole install: sink closed, then `fsmRestore` -/
+def installFromLeader (n : Node) (hist' : List Cmd) (j : Nat) (d : Db) : Node :=
+  restoreSteps.foldl (restoreStep j d) (installSinkClosed n hist' j d)
 
 /-- a node that joins the cluster of `leader` afterwards, with nothing of its own: raft brings
 it the leader's newest installed snapshot (`fsmRestore`) and the log entries after it — `Open`'s
@@ -427,8 +470,10 @@ statements: `p:k:v` put, `i:k:v` ins, `d:k` del, `a:k:x` add, `b` bad, `t:k=v;k=
 `reset`                         → `ok`   (fresh node, empty kv table)
 `save` / `restore`              → `ok`   remember / return to a state (crash-image exploration)
 `exec <0|1> <stmt,stmt,…>`      → `ok`
-`load <k=v;k=v|->` / `loadbad`  → `ok|rejected` (what the client gets) ; `boot <rows>` → `ok`
+`load <k=v;k=v|->` / `loadbad`  → `ok|rejected` (what the client gets) ; `boot <rows>` → `ok|refused` (refused unless the configuration has one server)
 `join`                          → the table of a node that joins now (`joinFrom`)
+`recv-snap <rows>`              → `ok`  a snapshot from the leader (at this node's last index) is installed in its store; FSM.Restore not run
+`recv-restore`                  → `ok`  FSM.Restore of the newest snapshot
 `loadiofail <rows>`             → `rejected`  this node's scratch-file I/O fails applying the LOAD
 `snap <trailing>`               → `ok`   complete snapshot
 `s-ckpt` `s-persist` `s-install` `s-fp` `s-compact <trailing>` → `ok`   snapshot micro-steps
@@ -506,10 +551,21 @@ def step (d : DState) (line : String) : DState × String :=
     match parseRows rows with
     | some r => if n.up then ({ d with n := (writeScratchFails n (.load r)).1 }, "rejected") else (d, "bad-op")
     | none => (d, "bad-op")
+  | ["recv-snap", rows] =>
+    -- a snapshot from the leader at this node's last index (newer than its newest snapshot) is
+    -- installed in the store: the sink is closed, FSM.Restore has not run
+    match parseRows rows with
+    | some r => if n.up && decide (newestIdx n < n.hist.length) then upd (installSinkClosed n n.hist n.hist.length r) else (d, "bad-op")
+    | none => (d, "bad-op")
+  | ["recv-restore"] =>
+    -- FSM.Restore of the newest snapshot (the second half of the install)
+    match n.snap with
+    | some (j, r) => if n.up then upd (restoreSteps.foldl (restoreStep j r) n) else (d, "bad-op")
+    | none => (d, "bad-op")
   | ["join"] => if n.up then (d, showDb (joinFrom n).live) else (d, "bad-op")
   | ["boot", rows] =>
     match parseRows rows with
-    | some r => if n.up then upd (boot n r) else (d, "bad-op")
+    | some r => if n.up then ({ d with n := (bootR n r).1 }, if (bootR n r).2 then "refused" else "ok") else (d, "bad-op")
     | none => (d, "bad-op")
   | ["snap", t] =>
     match t.toNat? with
